@@ -143,12 +143,13 @@ static double dominance_margin(const MatrixXd &a) {  // min_i |a_ii| - sum_{j!=i
 
 // diagonally dominant symmetric matrix with well separated diagonal.  var selects
 // sign/profile/shuffle/coupling strength.
-static MatrixXd make_dd(long n, int var, Rng &r, bool positive_only) {
+static MatrixXd make_dd(long n, int var, Rng &r, bool positive_only, double eps_override = 0.0) {
   int profile = var % 3;
   int sign = positive_only ? 0 : (var / 3) % 3;  // 0 positive, 1 negative, 2 both signs
   bool shuffle = (var / 9) % 2 == 1;
   double eps = pick3(0.001, 0.01, 0.03, (var / 18) % 3);
   bool decaying = (var / 54) % 2 == 0;
+  if (eps_override > 0.0) eps = eps_override;
   VectorXd d = diag_profile(n, profile, r);
   if (sign == 1) {
     // all negative, the lowest (most negative) end keeps the gaps of the profile's low end
@@ -191,6 +192,11 @@ static void build_symm(Problem &p, long n, const std::string &fam, int var, Rng 
   p.famok = true;
   if (fam == "dd") {
     a = make_dd(n, var, r, false);
+    p.famok = dominance_margin(a) > 0.0;
+  } else if (fam == "ddweak") {
+    // nearly diagonal: the most benign diagonally dominant matrices, coupling 3e-9 .. 1e-7 (a Ritz
+    // value can coincide with a diagonal element in floating point); profiles 0/1 only
+    a = make_dd(n, var - (var % 3 == 2 ? 1 : 0), r, false, 3e-9 * double(1 + (var / 7) % 30));
     p.famok = dominance_margin(a) > 0.0;
   } else if (fam == "ddflat") {
     // strictly diagonally dominant, but the diagonal is (nearly) constant: the diagonal
